@@ -6,6 +6,8 @@
 //
 //	op     = <G|H>|<act>;<act>;...        G = GET, H = HEAD
 //	act    = a:<hexkey>:<hexval>          w.Header()[key] = append(w.Header()[key], val)   (raw key, no canonicalisation)
+//	         m:<hexkey>:<hexval>          w.Header()[key][0] = val, in place (no effect if the key is absent): the snapshot taken
+//	                                      at WriteHeader time must not alias the handler's slices
 //	         s:<code>                     w.WriteHeader(code)
 //	         A:<hexkey>:<hexbyte>:<n>     the same with a value of n copies of the byte (large header / trailer blocks)
 //	         w:<hexbyte>:<n>              w.Write(n copies of the byte)
@@ -17,6 +19,8 @@
 //	         printed run-length encoded as *<rle>
 //	         D<+|->:<hexbyte>*<n>.<hexbyte>*<n>   DATA, run-length encoded payload
 //	         R:<code>  RST_STREAM      G:<code>  GOAWAY     E:<text>  client-side decode error
+//	               after every Write the harness overwrites the buffer it passed (the server must not keep it);
+//	               a Flush that returns an error adds "fe"
 //	write results: per w action  <n> | b (ErrBodyNotAllowed) | c (more than declared Content-Length) | e (other error);
 //	               "-" for HEAD requests (not compared)
 //
@@ -64,6 +68,13 @@ func parseOp(op string) (head bool, acts []action, ok bool) {
 				return false, nil, false
 			}
 			acts = append(acts, action{kind: 'a', k: string(k), v: string(v)})
+		case f[0] == "m" && len(f) == 3:
+			k, ok1 := vh.UnHex(f[1])
+			v, ok2 := vh.UnHex(f[2])
+			if !ok1 || !ok2 {
+				return false, nil, false
+			}
+			acts = append(acts, action{kind: 'm', k: string(k), v: string(v)})
 		case f[0] == "A" && len(f) == 4:
 			k, ok1 := vh.UnHex(f[1])
 			b, ok2 := vh.UnHex(f[2])
@@ -133,10 +144,18 @@ func run(head bool, acts []action) string {
 			switch a.kind {
 			case 'a':
 				w.Header()[a.k] = append(w.Header()[a.k], a.v)
+			case 'm':
+				if vv := w.Header()[a.k]; len(vv) > 0 {
+					vv[0] = a.v
+				}
 			case 's':
 				w.WriteHeader(a.n)
 			case 'w':
-				n, err := w.Write(bytes.Repeat([]byte{a.b}, a.n))
+				buf := bytes.Repeat([]byte{a.b}, a.n)
+				n, err := w.Write(buf)
+				for i := range buf {
+					buf[i] ^= 0x5a // the caller may reuse its buffer as soon as Write returns
+				}
 				switch {
 				case err == nil:
 					wres = append(wres, strconv.Itoa(n))
@@ -148,7 +167,9 @@ func run(head bool, acts []action) string {
 					wres = append(wres, "e")
 				}
 			case 'f':
-				w.(http.Flusher).Flush()
+				if err := w.(http.Flusher).Flush(); err != nil {
+					wres = append(wres, "fe")
+				}
 			}
 		}
 	}
@@ -360,7 +381,7 @@ var clVals = []string{"5", "0", "+3", "-1", "abc", "", "99999999999999999999", "
 var trailerDecl = []string{"X-T1", "X-T1, X-T2", "x-t2,X-T3", "Connection", "Content-Length,X-T2", " X-T1 ,, x-t3 ", "Trailer", "Keep-Alive, X-T1",
 	"Transfer-Encoding", "", ",", "X-Never", "upgrade"}
 var prefixKeys = []string{"Trailer:X-T3", "Trailer:x-t4", "Trailer:Connection", "Trailer:X-T1", "Trailer:", "Trailer:Content-Length", "Trailer:X Y"}
-var statuses = []int{200, 200, 200, 204, 304, 404, 500, 100, 101, 199, 201, 999, 301}
+var statuses = []int{200, 200, 200, 204, 304, 404, 500, 100, 101, 199, 201, 999, 301, 205, 206, 302, 400, 503, 599, 600, 103}
 
 func hx(s string) string { return vh.Hex([]byte(s)) }
 
@@ -465,9 +486,61 @@ func genBig(r *vh.Rand) string {
 	return m + "|" + strings.Join(acts, ";")
 }
 
+// genTrailers: trailers announced in several Trailer header lines (and in one comma list), values set after the body,
+// some never set, some set but never announced, some modified in place after WriteHeader.
+func genTrailers(r *vh.Rand) string {
+	names := []string{"X-T1", "X-T2", "X-T3", "X-T4", "x-t5", "X-Never"}
+	var acts []string
+	nl := r.Range(1, 3)
+	var announced []string
+	for i := 0; i < nl; i++ {
+		var line []string
+		for j := 0; j <= r.Intn(2); j++ {
+			n := names[r.Intn(len(names))]
+			line = append(line, n)
+			announced = append(announced, n)
+		}
+		acts = append(acts, "a:"+hx("Trailer")+":"+hx(strings.Join(line, r.Pick(",", ", ", " , "))))
+	}
+	if r.Chance(1, 3) {
+		acts = append(acts, "a:"+hx("X-A")+":"+hx("v"), "m:"+hx("X-A")+":"+hx("w"))
+	}
+	if r.Chance(1, 2) {
+		acts = append(acts, fmt.Sprintf("s:%d", statuses[r.Intn(len(statuses))]))
+	}
+	if r.Chance(1, 3) {
+		acts = append(acts, "m:"+hx("Trailer")+":"+hx("X-T4")) // after the snapshot: must not change what was announced
+	}
+	for i := r.Intn(3); i > 0; i-- {
+		acts = append(acts, genWrite(r))
+	}
+	if r.Chance(2, 3) {
+		acts = append(acts, "f")
+	}
+	for _, n := range announced {
+		if r.Chance(3, 4) {
+			acts = append(acts, "a:"+hx(n)+":"+hx(r.Pick(append(vals, badVals...)...)))
+		}
+	}
+	if r.Chance(1, 3) {
+		acts = append(acts, "a:"+hx(names[r.Intn(len(names))])+":"+hx("late"), "m:"+hx(names[r.Intn(len(names))])+":"+hx("changed"))
+	}
+	if r.Chance(1, 4) {
+		acts = append(acts, "a:"+hx("Trailer:"+names[r.Intn(len(names))])+":"+hx("p"))
+	}
+	m := "G"
+	if r.Chance(1, 8) {
+		m = "H"
+	}
+	return m + "|" + strings.Join(acts, ";")
+}
+
 func gen(r *vh.Rand) string {
 	if r.Chance(1, 8) {
 		return genBig(r)
+	}
+	if r.Chance(1, 6) {
+		return genTrailers(r)
 	}
 	m := "G"
 	if r.Chance(1, 5) {
@@ -491,8 +564,14 @@ func gen(r *vh.Rand) string {
 			acts = append(acts, genWrite(r))
 		case x < 7:
 			acts = append(acts, "f")
-		case x < 9:
+		case x < 8:
 			acts = append(acts, genHeader(r, true))
+		case x < 9:
+			if k := r.Pick(append(normalKeys, "Content-Type", "Trailer", "Date", "connection")...); k == "Content-Type" {
+				acts = append(acts, "m:"+hx(k)+":"+hx(r.Pick("x/y", "t/h")))
+			} else {
+				acts = append(acts, "m:"+hx(k)+":"+hx(r.Pick(vals...)))
+			}
 		default:
 			acts = append(acts, fmt.Sprintf("s:%d", statuses[r.Intn(len(statuses))]))
 		}
